@@ -27,6 +27,9 @@ def run(tier: str) -> int:
             {"Family": "stackdeep", "MaxLen": 3, "Starts": "zero", "Sample": 1200, "workers": 3},
             {"Family": "tags", "MaxLen": 3, "Starts": "zero", "Sample": 150, "workers": 2},
             {"Family": "optsk", "MaxLen": 3, "Starts": "all", "Sample": 150, "workers": 3, "style": "min"},
+            {"Family": "trivfx", "MaxLen": 3, "Starts": "zero", "Sample": 150, "workers": 3},
+            {"Family": "ci", "MaxLen": 3, "Starts": "zero", "Sample": 100, "workers": 3},
+            {"Family": "names", "MaxLen": 3, "Starts": "zero", "Sample": 250, "workers": 3},
         ]
     else:
         fams = [
@@ -39,6 +42,9 @@ def run(tier: str) -> int:
             {"Family": "stack1", "MaxLen": 4, "Starts": "all", "Sample": 0, "workers": 8, "style": "both"},
             {"Family": "stackdeep", "MaxLen": 4, "Starts": "zero", "Sample": 20000, "workers": 8},
             {"Family": "tags", "MaxLen": 4, "Starts": "zero", "Sample": 0, "workers": 8},
+            {"Family": "trivfx", "MaxLen": 4, "Starts": "zero", "Sample": 0, "workers": 8},
+            {"Family": "ci", "MaxLen": 3, "Starts": "zero", "Sample": 0, "workers": 8},
+            {"Family": "names", "MaxLen": 3, "Starts": "zero", "Sample": 0, "workers": 8},
         ]
     for f in fams:
         replay.run_family(rep, f, "total", modes)
